@@ -13,7 +13,10 @@ def wTrips (ts : List (Nat × Nat × K)) : String :=
 def wOpt (o : Option K) : String := match o with | some v => "some " ++ Wire.wr v | none => "none"
 
 def views (s : Sp K) (gi gj : Nat) : String :=
-  s!"{wRes wOpt (Sp.get s gi gj)} {wRes wTrips (Sp.toTriplets s)} {wRes wMat (Sp.toDense s)} {wRes wArr (Sp.colIndex s)}"
+  let back : Res (Array Nat) := do
+    let ci ← Sp.colIndex s
+    Sp.colStartFromIndex s.cols s.nonzero ci
+  s!"{wRes wOpt (Sp.get s gi gj)} {wRes wTrips (Sp.toTriplets s)} {wRes wMat (Sp.toDense s)} {wRes wArr (Sp.colIndex s)} {wRes wArr back}"
 
 def pTrips : P (List (Nat × Nat × K)) := do
   let n ← pNat
